@@ -74,7 +74,7 @@ class OpAdd(Op):
             else:
                 parent.insert(int(target), self.value)
         elif isinstance(parent, MutableMapping):
-            parent[target] = self.value
+            parent[str(target)] = self.value
         else:
             raise JSONPatchError(
                 f"unexpected operation on {parent.__class__.__name__!r}"
@@ -115,8 +115,8 @@ class OpAddNe(OpAdd):
                 parent.append(self.value)
             else:
                 parent.insert(int(target), self.value)
-        elif isinstance(parent, MutableMapping) and target not in parent:
-            parent[target] = self.value
+        elif isinstance(parent, MutableMapping) and str(target) not in parent:
+            parent[str(target)] = self.value
         return data
 
 
@@ -150,7 +150,7 @@ class OpAddAp(OpAdd):
             else:
                 parent.insert(int(target), self.value)
         elif isinstance(parent, MutableMapping):
-            parent[target] = self.value
+            parent[str(target)] = self.value
         else:
             raise JSONPatchError(
                 f"unexpected operation on {parent.__class__.__name__!r}"
@@ -181,9 +181,11 @@ class OpRemove(Op):
                 raise JSONPatchError("can't remove nonexistent item")
             del parent[int(self.path.parts[-1])]
         elif isinstance(parent, MutableMapping):
-            if obj is UNDEFINED:
+            # Object member names are strings, even if they look like an index.
+            key = str(self.path.parts[-1])
+            if obj is UNDEFINED or key not in parent:
                 raise JSONPatchError("can't remove nonexistent property")
-            del parent[self.path.parts[-1]]
+            del parent[key]
         else:
             raise JSONPatchError(
                 f"unexpected operation on {parent.__class__.__name__!r}"
@@ -219,9 +221,11 @@ class OpReplace(Op):
                 raise JSONPatchError("can't replace nonexistent item")
             parent[int(self.path.parts[-1])] = self.value
         elif isinstance(parent, MutableMapping):
-            if obj is UNDEFINED:
+            # Object member names are strings, even if they look like an index.
+            key = str(self.path.parts[-1])
+            if obj is UNDEFINED or key not in parent:
                 raise JSONPatchError("can't replace nonexistent property")
-            parent[self.path.parts[-1]] = self.value
+            parent[key] = self.value
         else:
             raise JSONPatchError(
                 f"unexpected operation on {parent.__class__.__name__!r}"
@@ -259,7 +263,10 @@ class OpMove(Op):
         if isinstance(source_parent, MutableSequence):
             del source_parent[int(self.source.parts[-1])]
         if isinstance(source_parent, MutableMapping):
-            del source_parent[self.source.parts[-1]]
+            key = str(self.source.parts[-1])
+            if key not in source_parent:
+                raise JSONPatchError("source object does not exist")
+            del source_parent[key]
 
         dest_parent, _ = self.dest.resolve_parent(data)
 
@@ -270,7 +277,7 @@ class OpMove(Op):
         if isinstance(dest_parent, MutableSequence):
             dest_parent.insert(int(self.dest.parts[-1]), source_obj)
         elif isinstance(dest_parent, MutableMapping):
-            dest_parent[self.dest.parts[-1]] = source_obj
+            dest_parent[str(self.dest.parts[-1])] = source_obj
         else:
             raise JSONPatchError(
                 f"unexpected operation on {dest_parent.__class__.__name__!r}"
@@ -312,7 +319,7 @@ class OpCopy(Op):
         if isinstance(dest_parent, MutableSequence):
             dest_parent.insert(int(self.dest.parts[-1]), copy.deepcopy(source_obj))
         elif isinstance(dest_parent, MutableMapping):
-            dest_parent[self.dest.parts[-1]] = copy.deepcopy(source_obj)
+            dest_parent[str(self.dest.parts[-1])] = copy.deepcopy(source_obj)
         else:
             raise JSONPatchError(
                 f"unexpected operation on {dest_parent.__class__.__name__!r}"
